@@ -3,6 +3,7 @@
 cd /verif
 export GOFLAGS=-mod=mod GOPROXY=off GOSUMDB=off GOTOOLCHAIN=local
 go build -o bin/govc ./cmd/govc || exit 1
+./bin/govc lock >/dev/null || exit 1   # refresh contracts/ordinals.lock (headers of the statements ordinal-anchored clauses were written for)
 python3 tools/gen_manifest.py >/dev/null
 rc=0
 for p in $(python3 -c "import json;print(' '.join(c['property_id'] for c in json.load(open('MANIFEST.json'))['checks']))"); do
